@@ -324,15 +324,20 @@ def slot_decision(ctx, f, cfg):
     if not ctx.floor("C02.slot-decision", "LeapArray::get_bucket_of_time", len(bs), 1):
         return
     b = bs[0]
-    roles = [("target", ["call:calculate_start_stamp"], ["call:BucketWrap::<T>::start_stamp"]), ("stamp", ["call:BucketWrap::<T>::start_stamp"], ["call:calculate_start_stamp"])]
+    # the requested bucket's start = now - now % bucket_len, through a helper (any name) or inline
+    # (the slot is selected by an index computed from `now`, so the stamp's slice also contains the index arithmetic: the stamp is what
+    # came out of start_stamp(), the target is what did not)
+    roles = [("stamp", ["call:BucketWrap::<T>::start_stamp"], ["call:calculate_start_stamp"]),
+             ("target", ["call:calculate_start_stamp"], ["call:BucketWrap::<T>::start_stamp"]),
+             ("target", ["param:now", "op:Rem", "op:Sub"], ["call:BucketWrap::<T>::start_stamp"])]
 
     def oname(t, atoms):
         n = callee_def(t).rsplit("::", 1)[-1]
         return n
     w = D.Walker(f, b, make_classifier(roles), opaque_name=oname)
     paths = w.walk(0, lambda bb, env: None)
-    resets = {bb for bb, t in b.calls() if callee_def(t).rsplit("::", 1)[-1] == "reset_bucket"}
-    stamps = {bb for bb, t in b.calls() if callee_def(t).rsplit("::", 1)[-1] == "reset_start_stamp"}
+    resets = set(call_or_inlined(b, "reset_bucket"))
+    stamps = set(call_or_inlined(b, "reset_start_stamp"))
     yields = {bb for bb, t in b.calls() if callee_def(t).rsplit("::", 1)[-1] in ("yield_now",)}
 
     def outcome(p, asg):
@@ -463,13 +468,18 @@ def expiry(ctx, f, cfg):
 
 
 def gateway(ctx, f, cfg):
-    sat = f.one("SlidingWindowMetric::satisfied_buckets")
-    rng = f.one("SlidingWindowMetric::bucket_start_range")
-    if not ctx.floor("C02.window-gateway", "satisfied_buckets + bucket_start_range", (1 if sat else 0) + (1 if rng else 0), 2):
+    # by role: the method(s) of SlidingWindowMetric that ask the underlying array for its buckets under a predicate (private names are
+    # not anchors; in the view the range helper is inlined, whatever it is called)
+    sats = [f.view(b) for p, b in f.bodies.items() if b.impl_self == SWM and b.kind == "AssocFn" and not b.pub
+            and any(callee_def(t).rsplit("::", 1)[-1] == "get_valid_values_conditional" for _, t in b.calls())]
+    if not sats:
+        sats = [f.view(b) for p, b in f.bodies.items() if b.impl_self == SWM and b.kind == "AssocFn"
+                and any(callee_def(t).rsplit("::", 1)[-1] == "get_valid_values_conditional" for _, t in b.calls())][:1]
+    if not ctx.floor("C02.window-gateway", "method of SlidingWindowMetric that filters the array's buckets by a window predicate", len(sats), 1):
         return
+    sat = sats[0]
     # predicate closure: start <= curr && curr <= end
-    clos = f.closures_of(sat)
-    okp = False
+    clos = f.closures_of(f.raw(sat))
     if clos:
         c = clos[0]
 
@@ -488,25 +498,29 @@ def gateway(ctx, f, cfg):
             a0 = sl.of_operand(t["args"][0])
             a1 = sl.of_operand(t["args"][1])
             ok = any_atom(a0, "field:SlidingWindowMetric.inner") and "param:now" in a1
-    # upvars come from bucket_start_range(now)
+    # what the predicate captures: the window's start range, computed from `now` (bucket-aligned), the window length and the bucket length
     up = set()
     for blk in sat.blocks:
+        if blk["cleanup"]:
+            continue
         for s in blk["stmts"]:
             if s["k"] == "assign" and s["rv"]["k"] == "agg" and s["rv"].get("closure"):
                 for o in s["rv"]["ops"]:
                     up |= sl.of_operand(o)
-    ok = ok and any_atom(up, "call:SlidingWindowMetric::bucket_start_range") and "param:now" in up
-    ctx.instance("C02.window-gateway/satisfied", sat.path, {"filtered_by_inner_array_with_now": ok}, "inner.get_valid_values_conditional(now, range predicate from bucket_start_range(now))", ok, cfg)
+    aligned = any_atom(up, "call:calculate_start_stamp") or ("op:Rem" in up and "op:Sub" in up)
+    ok = ok and "param:now" in up and aligned
+    ctx.instance("C02.window-gateway/satisfied", sat.path, {"filtered_by_inner_array_with_now": ok}, "inner.get_valid_values_conditional(now, range predicate from the bucket-aligned now)", ok, cfg)
     if not ok:
         ctx.violation("C02.window-gateway", "C02.window-gateway|satisfied", "satisfied_buckets does not select the buckets of [now's window] through the array's expiry filter", sat.loc(), config=cfg)
     # range inputs
-    rs = Slicer(f, rng)
-    at = rs.of_local(0)
-    need = ["call:calculate_start_stamp", "field:SlidingWindowMetric.interval_ms", "call:bucket_len_ms", "param:t_ms"]
-    missing = [x for x in need if not any_atom(at, x) and x not in at]
-    ctx.instance("C02.window-gateway/range-inputs", rng.path, sorted(short(a) for a in at if a.startswith(("call:core", "field:core", "param:", "op:")))[:10], need, not missing, cfg)
+    need = {"bucket-aligned time": lambda a: any_atom(a, "call:calculate_start_stamp") or ("op:Rem" in a and "op:Sub" in a),
+            "field:SlidingWindowMetric.interval_ms": lambda a: any_atom(a, "field:SlidingWindowMetric.interval_ms"),
+            "bucket_len_ms": lambda a: any_atom(a, "call:bucket_len_ms") or any_atom(a, "field:LeapArray.bucket_len_ms"),
+            "the queried time": lambda a: "param:now" in a or "param:t_ms" in a}
+    missing = [k for k, fn in need.items() if not fn(up)]
+    ctx.instance("C02.window-gateway/range-inputs", sat.path, sorted(short(a) for a in up if a.startswith(("call:core", "field:core", "param:", "op:")))[:10], sorted(need), not missing, cfg)
     if missing:
-        ctx.violation("C02.window-gateway", "C02.window-gateway|range-inputs|" + ",".join(missing), "the window's start range does not depend on %s" % missing, rng.loc(), config=cfg)
+        ctx.violation("C02.window-gateway", "C02.window-gateway|range-inputs|" + ",".join(missing), "the window's start range does not depend on %s" % missing, sat.loc(), config=cfg)
     # the window reaches the array's buckets only through that filter: no other data accessor of the underlying array is called on
     # `inner` (a delegated whole-ring statistic would report events older than the window)
     def _touches_array(path):
@@ -550,12 +564,17 @@ def gateway(ctx, f, cfg):
     for p, b in f.bodies.items():
         if not (b.impl_self == SWM and b.kind == "AssocFn"):
             continue
+        b = f.view(b)
         s2 = Slicer(f, b)
         for bb, t in b.calls():
             if callee_def(t).rsplit("::", 1)[-1] == "value" and "BucketWrap" in callee_def(t):
                 n += 1
                 a = s2.of_operand(t["args"][0])
-                if not (any_atom(a, "call:SlidingWindowMetric::satisfied_buckets") or any_atom(a, "call:get_valid_values_conditional") or any(x.startswith("param:bucket") for x in a)):
+                filtered = any_atom(a, "call:SlidingWindowMetric::satisfied_buckets") or any_atom(a, "call:get_valid_values_conditional")
+                # a bucket that reaches the read through a local collection / a helper's parameter carries no accessor of the array at all;
+                # what must not happen is a bucket taken from `inner` by anything but the filtered accessor
+                from_array = any_atom(a, "field:SlidingWindowMetric.inner") or any(x.startswith("call:") and "LeapArray" in x and not x.endswith(("get_valid_values_conditional", "::value", "start_stamp")) for x in a)
+                if from_array and not filtered:
                     bad.append(p)
     ctx.instance("C02.window-gateway/all-reads", SWM, {"value_reads": n, "unfiltered": bad}, "every bucket value read flows from satisfied_buckets / get_valid_values_conditional (or a bucket parameter)", not bad and n >= 4, cfg)
     if bad or n < 4:
